@@ -20,6 +20,9 @@ RULE = ("seeded random permittivities/fractions/ratios from the quantifier space
         "form (dict, list+ratio, list+full ratios), scalar types float/complex/np.complex128, the error paths; "
         "distinct = distinct (slice, input line)")
 TOL = Tol(1e-10)
+# complex-valued outputs: numpy and the model round complex division and square root differently, so the error is
+# relative to the modulus of the value, not to each component (a 1e-4 imaginary part next to a real part of 40)
+TOLC = Tol(1e-10, scale="line")
 SHAPE_TOK = {None: "S", "spheres": "S", "random_needles": "N", "cubes": "X"}
 
 
@@ -120,7 +123,7 @@ def correspond(ctx):
         fn = m.polder_van_santen if i % 5 else m.bruggeman
         kw = {} if shape is None else {"inclusion_shape": shape}
         co.add("pvs." + ("needles" if shape == "random_needles" else "spheres"),
-               f"pvs {SHAPE_TOK[shape]} 0 {f2t(f)} {ct(az)} {ct(bz)}", out_c(lambda: fn(f, a, b, **kw)), TOL,
+               f"pvs {SHAPE_TOK[shape]} 0 {f2t(f)} {ct(az)} {ct(bz)}", out_c(lambda: fn(f, a, b, **kw)), TOLC,
                desc={"f": f, "e0": az, "eps": bz, "shape": shape})
         co.note(f"pvs {shape} e0:{ka} eps:{kb}" + (" f=0" if f == 0 else " f=1" if f == 1 else ""))
     # error paths
@@ -152,7 +155,7 @@ def correspond(ctx):
                 d = {"spheres": w, "cubes": 1 - w}
             line = f"pvsmix 0 {len(d)} " + " ".join(f"{SHAPE_TOK[k]} {f2t(v)}" for k, v in d.items()) + f" {f2t(f)} {ct(az)} {ct(bz)}"
             o = out_c(lambda: m.polder_van_santen(f, a, b, inclusion_shape=d))
-            co.add("pvs.mixture.dict", line, o, TOL, desc={"f": f, "e0": az, "eps": bz, "dict": d})
+            co.add("pvs.mixture.dict", line, o, TOLC, desc={"f": f, "e0": az, "eps": bz, "dict": d})
         else:
             shapes = [["spheres", "random_needles"], ["random_needles", "spheres"], ["spheres", "random_needles", "spheres"]][int(rng.integers(0, 3))]
             if form == 1:      # one ratio less: last deduced; scalar or list
@@ -169,7 +172,7 @@ def correspond(ctx):
             line = (f"pvslist 0 {len(shapes)} " + " ".join(SHAPE_TOK[s] for s in shapes) + f" {len(rs)} " + " ".join(f2t(r) for r in rs)
                     + f" {f2t(f)} {ct(az)} {ct(bz)}")
             o = out_c(lambda: m.polder_van_santen(f, a, b, inclusion_shape=tuple(shapes) if i % 2 else list(shapes), mixing_ratio=mr))
-            co.add("pvs.mixture.list", line, o, TOL, desc={"f": f, "e0": az, "eps": bz, "shapes": shapes, "mixing_ratio": rs},
+            co.add("pvs.mixture.list", line, o, TOLC, desc={"f": f, "e0": az, "eps": bz, "shapes": shapes, "mixing_ratio": rs},
                    nontrivial=not o.startswith("ERR"))
         co.note("mixture form %d -> %s" % (form, "error" if o.startswith("ERR") else "value"))
 
@@ -180,21 +183,21 @@ def correspond(ctx):
         k = i % 6
         if k == 0:
             o = out_c(lambda: m.maxwell_garnett_for_spheres(f, a, b))
-            co.add("mg.spheres", f"mgs {f2t(f)} {ct(az)} {ct(bz)}", o, TOL, desc={"f": f, "e0": az, "eps": bz})
+            co.add("mg.spheres", f"mgs {f2t(f)} {ct(az)} {ct(bz)}", o, TOLC, desc={"f": f, "e0": az, "eps": bz})
         elif k == 1:
             o = out_c(lambda: permittivity_hashin_shtrikman(f, a, b))
-            co.add("hashin_shtrikman", f"hs {f2t(f)} {ct(az)} {ct(bz)}", o, TOL, desc={"f": f, "e0": az, "eps": bz})
+            co.add("hashin_shtrikman", f"hs {f2t(f)} {ct(az)} {ct(bz)}", o, TOLC, desc={"f": f, "e0": az, "eps": bz})
         elif k == 2:
             A = rng.dirichlet(np.ones(3)) if i % 12 else np.array([1 / 3, 1 / 3, 1 / 3])
             o = out_c(lambda: m.maxwell_garnett(f, a, b, depol_xyz=np.array(A)))
-            co.add("mg.depol", f"mg 1 {f2t(f)} {ct(az)} {ct(bz)} {C.fs(A)}", o, TOL, desc={"f": f, "e0": az, "eps": bz, "depol": list(A)})
+            co.add("mg.depol", f"mg 1 {f2t(f)} {ct(az)} {ct(bz)} {C.fs(A)}", o, TOLC, desc={"f": f, "e0": az, "eps": bz, "depol": list(A)})
         elif k == 3:
             lr = gen_lr(rng)
             o = out_c(lambda: m.maxwell_garnett(f, a, b, length_ratio=lr, inclusion_shape="spheres" if i % 2 else None))
-            co.add("mg.length_ratio", f"mglr 1 {f2t(f)} {ct(az)} {ct(bz)} {f2t(lr)}", o, TOL, desc={"f": f, "e0": az, "eps": bz, "lr": lr})
+            co.add("mg.length_ratio", f"mglr 1 {f2t(f)} {ct(az)} {ct(bz)} {f2t(lr)}", o, TOLC, desc={"f": f, "e0": az, "eps": bz, "lr": lr})
         elif k == 4:
             o = out_c(lambda: m.maxwell_garnett(f, a, b))
-            co.add("mg.default", f"mglr 1 {f2t(f)} {ct(az)} {ct(bz)} {f2t(1.0)}", o, TOL, desc={"f": f, "e0": az, "eps": bz})
+            co.add("mg.default", f"mglr 1 {f2t(f)} {ct(az)} {ct(bz)} {f2t(1.0)}", o, TOLC, desc={"f": f, "e0": az, "eps": bz})
         else:
             if i % 12 == 5:
                 f = float(rng.uniform(1.0000001, 2))
